@@ -16,7 +16,7 @@ RUNNER_NOTE = ("Trusted: Coq kernel + vm_compute; hand-written model Runner.v of
 
 CHECKS = {
     "C01": (
-        "Coq proof (loop invariants by induction over the retry loop via a characterisation of one iteration) tied by in-Coq trace correspondence (projection: invocations); the decision function _RetryState._handle_failure is additionally tied by translation (PyIRF.v; the translated function proved equal to Runner.handle_failure on every run)",
+        "Coq proof (loop invariants by induction over the retry loop via a characterisation of one iteration) tied by in-Coq trace correspondence (projection: invocations); the retry loop is additionally tied by translation on every run: _RetryState._handle_failure = Runner.handle_failure (PyIRF.v), the sleep protocol of retry_helpers.py = Runner.backoff (PyIRS.v), the loop bodies of sync_core.py / async_core.py iterated = Runner.run (PyIRL.v)",
         "Theorems C01_* (invocations <= max_attempts, no invocation after a non-retryable class, per-class and UNKNOWN retry "
         "caps, fresh counters per call) hold for all configurations, outcome/timing/abort/handler environments and call "
         "sequences of the Gallina model of the retry loop; the model's invocation trace is compared inside Coq with /repo's on "
@@ -24,7 +24,7 @@ CHECKS = {
         RUNNER_NOTE, "DESIGN.md §4 C01",
     ),
     "C02": (
-        "Coq proof (loop-top invariant `top` by induction over the retry loop: every later attempt starts within the deadline; per-iteration sleep bound from the verdict; total-sleep potential argument) tied by in-Coq trace correspondence (projection: times of invocations and sleeps, requested delays) under a virtual monotonic clock with a jumping wall clock; the sleep protocol of retry_helpers.py is additionally tied by translation (PyIRS.v; sleep action + _finalize_attempt proved equal to Runner.backoff on every run)",
+        "Coq proof (loop-top invariant `top` by induction over the retry loop: every later attempt starts within the deadline; per-iteration sleep bound from the verdict; total-sleep potential argument) tied by in-Coq trace correspondence (projection: times of invocations and sleeps, requested delays) under a virtual monotonic clock with a jumping wall clock; the retry loop is additionally tied by translation on every run: _RetryState._handle_failure = Runner.handle_failure (PyIRF.v), the sleep protocol of retry_helpers.py = Runner.backoff (PyIRS.v), the loop bodies of sync_core.py / async_core.py iterated = Runner.run (PyIRL.v)",
         "Theorems C02_attempt_start, C02_sleep_within_remaining, C02_total_sleep, C02_no_retry_at_deadline, "
         "C02_measured_from_call_start hold for all configurations, environments (durations, overshoots, strategy returns incl. "
         "NaN/inf/negative), start times and budget states of the Gallina model of the retry loop, on the code's own "
@@ -33,7 +33,7 @@ CHECKS = {
         RUNNER_NOTE, "DESIGN.md §4 C02",
     ),
     "C03": (
-        "Coq proof (iff characterisation of one loop iteration by a pure verdict function; budget/sleep iff; stop-reason soundness) tied by in-Coq trace correspondence (projection: invocations, budget, retry/terminal events, handler, sleeps, polls); the decision function _RetryState._handle_failure is additionally tied by translation (PyIRF.v; the translated function proved equal to Runner.handle_failure on every run)",
+        "Coq proof (iff characterisation of one loop iteration by a pure verdict function; budget/sleep iff; stop-reason soundness) tied by in-Coq trace correspondence (projection: invocations, budget, retry/terminal events, handler, sleeps, polls); the retry loop is additionally tied by translation on every run: _RetryState._handle_failure = Runner.handle_failure (PyIRF.v), the sleep protocol of retry_helpers.py = Runner.backoff (PyIRS.v), the loop bodies of sync_core.py / async_core.py iterated = Runner.run (PyIRL.v)",
         "Theorems C03_* (continue iff permitted; budget asked iff static conditions; sleep iff; no backoff after the last "
         "permitted attempt; stop reason sound) for all configurations/environments of the Gallina model; tie as C01 with the "
         "C03 projection; the Python oracle restates the iff per failed attempt on every observed trace.",
@@ -51,7 +51,7 @@ CHECKS = {
         "DESIGN.md §5 C06",
     ),
     "C07": (
-        "Coq proof (state-machine lemmas over all histories: fail-fast window, single probe, close/reopen) tied by in-Coq correspondence on breaker histories and policy-level histories/interleavings; the breaker's methods are additionally tied by translation (PyIRH.v / CircuitIR obligations, as for C06)",
+        "Coq proof (state-machine lemmas over all histories: fail-fast window, single probe, close/reopen) tied by in-Coq correspondence on breaker histories and policy-level histories/interleavings; the breaker's methods are additionally tied by translation (PyIRH.v / CircuitIR obligations, as for C06); the policy wrappers are additionally tied by translation on every run (PyIRP.v: Policy / AsyncPolicy .call / .execute proved equal to Policy.policy_call, call sequences to Policy.policy_seq)",
         "Theorems C07_* hold for every configuration and history of the specification machine that C06_refinement ties to the "
         "circuit.py model, plus policy level (C07_policy_open_rejects, C07_policy_rejected_call on Policy.v); correspondence on "
         "open/half-open-cycle breaker histories (random + exhaustive small scope; disagreements that start while OPEN/HALF_OPEN are "
@@ -77,7 +77,7 @@ CHECKS = {
         "DESIGN.md §5 C10",
     ),
     "C13": (
-        "Coq proof (case analysis of the verdict of one loop iteration against its complete event list; loop-level 'ended pass is the last') tied by in-Coq trace correspondence (projection: polls, invocations, sleeps, classifications, budget calls, kind of delivery) with abort answers at every poll index and cancellation thrown at every suspension point of hand-driven coroutines; the loop bodies of sync_core.py / async_core.py are additionally tied by translation (PyIRL.v; one execution of the translated body proved equal to Runner.iter + Runner.deliver, the iterated loop to Runner.run, on every run)",
+        "Coq proof (case analysis of the verdict of one loop iteration against its complete event list; loop-level 'ended pass is the last') tied by in-Coq trace correspondence (projection: polls, invocations, sleeps, classifications, budget calls, kind of delivery) with abort answers at every poll index and cancellation thrown at every suspension point of hand-driven coroutines; the retry loop is additionally tied by translation on every run: _RetryState._handle_failure = Runner.handle_failure (PyIRF.v), the sleep protocol of retry_helpers.py = Runner.backoff (PyIRS.v), the loop bodies of sync_core.py / async_core.py iterated = Runner.run (PyIRL.v)",
         "Theorems C13_* (abort_if polled immediately before every attempt and, after the retry decision, before every sleep; a "
         "True answer or AbortRetryError ends the run as aborted with nothing but the `aborted` report after it; cancellation-type "
         "exceptions from the operation, before_sleep or the sleeper end the trace at that call and are delivered unchanged) for "
@@ -87,7 +87,7 @@ CHECKS = {
         RUNNER_NOTE, "DESIGN.md §4 C13, §15",
     ),
     "C16": (
-        "Coq proof (the handler/before_sleep/sleeper calls of a pass as a function of its verdict; SLEEP/DEFER/ABORT consequences; override by definition of resolve) tied by in-Coq trace correspondence (projection: handler, before_sleep, sleeper calls with placement, attempt, delay, decision; invocations; delivery kind and next_sleep_s) over all placements and decision sequences; the sleep protocol of retry_helpers.py is additionally tied by translation (PyIRS.v; sleep action + _finalize_attempt proved equal to Runner.backoff on every run)",
+        "Coq proof (the handler/before_sleep/sleeper calls of a pass as a function of its verdict; SLEEP/DEFER/ABORT consequences; override by definition of resolve) tied by in-Coq trace correspondence (projection: handler, before_sleep, sleeper calls with placement, attempt, delay, decision; invocations; delivery kind and next_sleep_s) over all placements and decision sequences; the retry loop is additionally tied by translation on every run: _RetryState._handle_failure = Runner.handle_failure (PyIRF.v), the sleep protocol of retry_helpers.py = Runner.backoff (PyIRS.v), the loop bodies of sync_core.py / async_core.py iterated = Runner.run (PyIRL.v)",
         "Theorems C16_* (handler consulted exactly once per granted, not pre-empted retry with the computed delay; SLEEP => "
         "before_sleep then exactly one sleeper call with that delay then the next attempt unless the deadline passed during the "
         "sleep; DEFER => no sleep, SCHEDULED, next_sleep_s = delay; ABORT => ABORTED; call-level overrides policy-level; no handler "
@@ -95,7 +95,7 @@ CHECKS = {
         RUNNER_NOTE, "DESIGN.md §4 C16",
     ),
     "C04": (
-        "Coq proof (the run's delivery is `deliver` of the pass that ended the loop; that pass is the last attempt; case analysis of its verdict) tied by in-Coq correspondence on what call() returns/raises (object identity by id registry, traceback frame checked by the driver); the loop bodies of sync_core.py / async_core.py are additionally tied by translation (PyIRL.v; one execution of the translated body proved equal to Runner.iter + Runner.deliver, the iterated loop to Runner.run, on every run)",
+        "Coq proof (the run's delivery is `deliver` of the pass that ended the loop; that pass is the last attempt; case analysis of its verdict) tied by in-Coq correspondence on what call() returns/raises (object identity by id registry, traceback frame checked by the driver); the retry loop is additionally tied by translation on every run: _RetryState._handle_failure = Runner.handle_failure (PyIRF.v), the sleep protocol of retry_helpers.py = Runner.backoff (PyIRS.v), the loop bodies of sync_core.py / async_core.py iterated = Runner.run (PyIRL.v)",
         "Theorems C04_* (a final pass exists and is the last attempt; success => the value of that attempt; stop on an "
         "exception-caused failure => that attempt's own exception re-raised; stop on a result-caused failure or deferral => "
         "RetryExhaustedError with stop_reason, attempts, last_class, exactly one of last_result/last_exception and next_sleep_s "
@@ -105,7 +105,7 @@ CHECKS = {
         RUNNER_NOTE, "DESIGN.md §4 C04",
     ),
     "C05": (
-        "Coq proof (strategy calls of a pass as a function of its verdict; data-flow of the delay through the complete event list: Forall (carries d)) tied by in-Coq trace correspondence (projection: strategy calls with all arguments, delays seen by handler/before_sleep/sleeper/retry events, next_sleep_s); the decision function _RetryState._handle_failure is additionally tied by translation (PyIRF.v; the translated function proved equal to Runner.handle_failure on every run)",
+        "Coq proof (strategy calls of a pass as a function of its verdict; data-flow of the delay through the complete event list: Forall (carries d)) tied by in-Coq trace correspondence (projection: strategy calls with all arguments, delays seen by handler/before_sleep/sleeper/retry events, next_sleep_s); the retry loop is additionally tied by translation on every run: _RetryState._handle_failure = Runner.handle_failure (PyIRF.v), the sleep protocol of retry_helpers.py = Runner.backoff (PyIRS.v), the loop bodies of sync_core.py / async_core.py iterated = Runner.run (PyIRL.v)",
         "Theorems C05_* (per-class strategy else default; at most one strategy call per failed attempt, exactly one per granted "
         "retry; arguments = attempt, classification incl. retry_after_s, previous delay, remaining time, cause; legacy signature; "
         "delay = min(max(0, finite(raw)), remaining); the same delay reaches handler, before_sleep, sleeper, retry/scheduled "
@@ -113,7 +113,7 @@ CHECKS = {
         RUNNER_NOTE, "DESIGN.md §4 C05",
     ),
     "C11": (
-        "Coq proof (as C04 for the execute delivery: every RetryOutcome field as a function of the final pass and the state it leaves; attempts = number of invocations by induction over the loop) tied by in-Coq correspondence on all RetryOutcome fields / the propagating exception; the loop bodies of sync_core.py / async_core.py are additionally tied by translation (PyIRL.v; one execution of the translated body proved equal to Runner.iter + Runner.deliver, the iterated loop to Runner.run, on every run)",
+        "Coq proof (as C04 for the execute delivery: every RetryOutcome field as a function of the final pass and the state it leaves; attempts = number of invocations by induction over the loop) tied by in-Coq correspondence on all RetryOutcome fields / the propagating exception; the retry loop is additionally tied by translation on every run: _RetryState._handle_failure = Runner.handle_failure (PyIRF.v), the sleep protocol of retry_helpers.py = Runner.backoff (PyIRS.v), the loop bodies of sync_core.py / async_core.py iterated = Runner.run (PyIRL.v)",
         "Theorems C11_* (ok iff the final attempt succeeded and then value is its result; otherwise stop_reason, attempts = "
         "#invocations, last_class, cause, exactly one of last_exception/last_result of the final processed failure, none if "
         "aborted before any failure, next_sleep_s iff deferred; only cancellation-type exceptions and a nested "
@@ -122,7 +122,7 @@ CHECKS = {
         RUNNER_NOTE, "DESIGN.md §4 C11",
     ),
     "C14": (
-        "Coq proof (the observability events of a run are the fan-out of a report sequence computed from the verdicts; grammar retry* terminal by induction over the loop; terminal report vs delivered stop reason) tied by in-Coq trace correspondence (projection: every on_metric/on_log call with arguments, captured timeline, delivered stop reason) incl. abort-sentinel scripts; the loop bodies of sync_core.py / async_core.py are additionally tied by translation (PyIRL.v; one execution of the translated body proved equal to Runner.iter + Runner.deliver, the iterated loop to Runner.run, on every run)",
+        "Coq proof (the observability events of a run are the fan-out of a report sequence computed from the verdicts; grammar retry* terminal by induction over the loop; terminal report vs delivered stop reason) tied by in-Coq trace correspondence (projection: every on_metric/on_log call with arguments, captured timeline, delivered stop reason) incl. abort-sentinel scripts; the retry loop is additionally tied by translation on every run: _RetryState._handle_failure = Runner.handle_failure (PyIRF.v), the sleep protocol of retry_helpers.py = Runner.backoff (PyIRS.v), the loop bodies of sync_core.py / async_core.py iterated = Runner.run (PyIRL.v)",
         "Theorems C14_* (metric hook and log hook receive exactly the run's report sequence, hence the same; normal runs report "
         "retry_1..retry_n with attempt = i then exactly one terminal event; the terminal report is success / aborted (stop reason "
         "only) / named after the stop reason in the state, which is the one delivered) for the Gallina model. Timeline equality and "
@@ -139,19 +139,19 @@ CHECKS = {
         RUNNER_NOTE, "DESIGN.md §4 C15",
     ),
     "C08": (
-        "Coq proof (case analysis of the wrapper's settlement for every delivery of the inner run; invariant 'no probe in flight between calls' by induction over call sequences; no-wedge lemma on the breaker) tied by in-Coq correspondence on spy-breaker calls with cancellation / nested-error injection into hand-driven coroutines, plus the probe-in-flight oracle on the real breaker",
+        "Coq proof (case analysis of the wrapper's settlement for every delivery of the inner run; invariant 'no probe in flight between calls' by induction over call sequences; no-wedge lemma on the breaker) tied by in-Coq correspondence on spy-breaker calls with cancellation / nested-error injection into hand-driven coroutines, plus the probe-in-flight oracle on the real breaker; the policy wrappers are additionally tied by translation on every run (PyIRP.v: Policy / AsyncPolicy .call / .execute proved equal to Policy.policy_call, call sequences to Policy.policy_seq)",
         "Theorems C08_* (every admitted call issues exactly one record whatever the operation, before_sleep or the sleeper "
         "raise; every record releases the probe slot; after any sequence of ended calls no probe is in flight; with no call "
         "outstanding the next call is admitted once recovery_timeout has elapsed) for the Gallina model of the policy wrappers "
         "composed with the retry-loop and breaker models, as repaired by fix commit 4805882 (the check demonstrated the defect on "
         "the pinned tree: findings/witness/C08-pinned-tree.json). Raising attempt hooks/classifiers/strategies are outside the "
         "model.",
-        "Trusted: Coq kernel + vm_compute; hand-written models Policy.v/Runner.v/Breaker.v (tied by correspondence only); scripted-"
+        "Trusted: Coq kernel + vm_compute; hand-written models Policy.v/Runner.v/Breaker.v (tied by the correspondence and by the translations of the wrappers, the retry loop and circuit.py: pyir_policy.py + PyIRP.v, pyir_loop/sleep/failure.py + PyIRL/S/F.v, pyir_circuit.py + PyIRH.v are trusted for those); scripted-"
         "world driver, spy breaker, virtual clock, hand-driven coroutines; calls on one breaker are sequential in these runs.",
         "DESIGN.md §5 C08",
     ),
     "C09": (
-        "Coq proof (the breaker operations of one policy call = [allow] or [allow; one record]; record kind as a function of the delivery; loop events contain no breaker operation) tied by in-Coq correspondence on spy-breaker calls over call/execute x retry/no-retry x sync/async sequences",
+        "Coq proof (the breaker operations of one policy call = [allow] or [allow; one record]; record kind as a function of the delivery; loop events contain no breaker operation) tied by in-Coq correspondence on spy-breaker calls over call/execute x retry/no-retry x sync/async sequences; the policy wrappers are additionally tied by translation on every run (PyIRP.v: Policy / AsyncPolicy .call / .execute proved equal to Policy.policy_call, call sequences to Policy.policy_seq)",
         "Theorems C09_exactly_one, C09_kind, C09_not_per_attempt for all configurations/environments of the Gallina model of the "
         "policy wrappers (Policy.v) composed with Runner.v and Breaker.v; pre-flight aborts of policies without retry component "
         "are excluded by hypothesis (never admitted; known finding under C07).",
